@@ -87,6 +87,14 @@ impl Model {
         self.parties.len()
     }
 
+    /// give party `p` another stake (before anything was derived from it): its keys of every generation are made
+    /// again with that stake, the fixture's own key is not used for it
+    pub fn set_stake(&mut self, p: PartyIdx, stake: Stake) {
+        self.parties[p].stake = stake;
+        self.keys.retain(|(q, _), _| *q != p);
+        self.keysets.clear();
+    }
+
     pub fn party_index(&self, party_id: &str) -> Option<PartyIdx> {
         self.parties.iter().position(|p| p.party_id == party_id)
     }
